@@ -103,7 +103,7 @@ def send_sites(F, R):
                 p = f.prov_operand(x.args[1])
                 rootl = p.root[2] if p.root[0] == 'var' else (p.root[1] if p.root[0] in ('multi', 'local') else None)
                 detail = 'release_chunk(%s) path=%s' % (p.render(), p.path)
-                if ('as:Ok' in p.path and 'as:Some' in p.path) or ('old' in f.varnames(x.args[1]) and any('as:Some' in str(v) for v in p.path)) or ('old' in f.varnames(x.args[1])):
+                if ('as:Ok' in p.path and 'as:Some' in p.path) or (p.root[0] == 'var' and any(re.search(SEND_RE, o_) for o_ in lib.origins(f, x.args[1]))):
                     good = True
             R.ob('FLOW', key + 'evicted-offset-released', good, 'the Some(old) payload of the send result flows to release_chunk (%s)' % detail, r_ok[0].where if r_ok else f.term_site(b).where, f)
         for s in ss:
